@@ -276,10 +276,11 @@ func removeAll(fs FS, path string) error {
 			return &PathError{Op: "removeall", Path: path, Err: err}
 		}
 	}
-	if err := Remove(fs, path); err == nil || errors.Is(err, ErrNotExist) {
+	err = Remove(fs, path)
+	if err == nil || errors.Is(err, ErrNotExist) {
 		return nil
 	}
-	return nil
+	return err
 }
 
 // Rename moves files with fs.Rename(). Fails with a not implemented error if it's not a RenameFS.
